@@ -40,16 +40,37 @@ type Listpack struct {
 	data        []byte //
 	p           uint32 //
 	numBytes    uint32 // 4 byte, the number of bytes
-	numElements uint16 // 2 byte, the number of Elements
+	numElements uint32 // 2 byte, the number of Elements; counted by traversal if the header holds lpHdrNumeleUnknown
 }
+
+const (
+	lpHdrNumeleUnknown = 65535 // LP_HDR_NUMELE_UNKNOWN
+	lpEOF              = 0xFF  // LP_EOF
+)
 
 func NewListpack(data []byte) *Listpack {
 	lp := new(Listpack)
 
 	lp.data = data
 	lp.numBytes = binary.LittleEndian.Uint32(data[:4])
-	lp.numElements = binary.LittleEndian.Uint16(data[4:6])
+	lp.numElements = uint32(binary.LittleEndian.Uint16(data[4:6]))
 	lp.p = 4 + 2
+
+	/* redis, listpack.c:lpLength : the header cannot hold 65535 elements or
+	 * more, then it is set to 65535 and the real number of elements is known
+	 * only by scanning the listpack up to the end byte. */
+	if lp.numElements == lpHdrNumeleUnknown {
+		lp.numElements = 0
+		for lp.data[lp.p] != lpEOF {
+			start := lp.p
+			lp.Next()
+			if lp.p == start {
+				panic(fmt.Errorf("list pack, unknown entry encoding : %x", lp.data[start]))
+			}
+			lp.numElements++
+		}
+		lp.p = 4 + 2
+	}
 
 	return lp
 }
@@ -146,7 +167,7 @@ func (lp *Listpack) NextInteger() int64 {
 	return ret
 }
 
-func (lp *Listpack) NumElements() uint16 {
+func (lp *Listpack) NumElements() uint32 {
 	return lp.numElements
 }
 
